@@ -138,6 +138,7 @@ func c05Tree(c *h.Ctx, bucket string, a amf0.Amf0, nodes int) {
 }
 
 func c05(c *h.Ctx) {
+	defer amfCheckRetained(c)
 	r := c.R
 
 	// 0. regression corpus: the failing inputs of F5 and F6 (fixed) and their neighbours.
